@@ -23,3 +23,21 @@ PROPS['C19'] = dict(
     assumptions=['binary64 rounding in joins/radiations/va_conv is not proved (search tolerance 1e-9 relative)',
                  'the 1 ppm agreement of the closed formula with the Ciddor form is an empirical fact checked by search only'],
 )
+
+PROPS['C03'] = dict(
+    module='GeodeVerif.Proofs.C03', namespace='GeodeVerif.C03',
+    required_theorems=['ellipsoid_constants', 'llh2xyz_closed_form', 'llh2xyz_closed_form_init', 'on_ellipsoid',
+                       'xyz2llh_fixed_point', 'fixed_point_algebra', 'xyz2llh_roundtrip_at_fixed_point', 'lon_range',
+                       'llh2xyz_equator', 'llh2xyz_poles'],
+    tie_functions=['Convert.llh2xyz', 'Convert.xyz2llh'],
+    tie_n={'quick': 4000, 'thorough': 200000},
+    probe='C03.py',
+    rule='tie: seeded edge-rich (lat 0/±90, lon ±180/±360, heights −1e4..4e7, shipped and random ellipsoids) '
+         'arguments, bitwise comparison of GenF with the real functions incl. the Ellipsoid constructor; non-trivial = '
+         'implementation returned a value; distinct by argument encoding. search: closed form at 50 digits (1 µm), '
+         'round trip (0.02 mm), longitude range, angle-class arguments.',
+    trusted_base=['the real-number reading of convert.llh2xyz/xyz2llh and constants.Ellipsoid.__init__ produced by the translator',
+                  'while-loop fuel 1000 in the model of xyz2llh (the source loop is uncapped); Diverged is a reportable outcome'],
+    assumptions=['binary64 rounding (1 µm / 0.02 mm clauses) is decided by search against a 50-digit oracle, not proved',
+                 'distance of the loop-exit iterate from the exact fixed point (contraction) is not proved'],
+)
